@@ -158,6 +158,12 @@ class GeomSystem(System):
             for v in list(vals):
                 vals.add(math.nextafter(v, 0.0))
                 vals.add(math.nextafter(v, 1.0))
+                for rel in (1e-11, 1e-10, 1e-9, 1e-7, 1e-5):
+                    # just outside the rounding allowance on either side of a size boundary
+                    vals.add(v * (1 + rel))
+                    vals.add(v * (1 - rel))
+                    vals.add(1 - (1 - v) * (1 + rel))
+                    vals.add(1 - (1 - v) * (1 - rel))
             vals = sorted(v for v in vals if 0.0 < v < 1.0)
             errs = [v for v in vals if v >= 2.0**-16]  # width = ceil(2/err): keep the counter array small
             confs = [v for v in vals if v <= 1 - 2.0**-30]
@@ -198,8 +204,10 @@ class GeomSystem(System):
         else:
             ers = set()
             for k in range(1, 31):
-                for base in (2.0**-k, 3 * 2.0**-(k + 2), 5 * 2.0**-(k + 3)):
+                for base in (2.0**-k, 3 * 2.0**-(k + 2), 5 * 2.0**-(k + 3), 7 * 2.0**-(k + 3), 2.0**-k / 3, 2.0**-k / 5):
                     ers.update((base, math.nextafter(base, 0.0), math.nextafter(base, 1.0)))
+                    for rel in (1e-11, 1e-9, 1e-6):
+                        ers.update((base * (1 + rel), base * (1 - rel)))
             ers.update((0.5, 0.25, 0.1, 0.01, 0.001, 1e-4, 1e-6, 1e-8))
             for b in range(1, 9):
                 for er in sorted(e for e in ers if 0 < e < 1):
